@@ -11,7 +11,7 @@ import numpy as np
 from .. import common as C
 
 PROP = "C16"
-GEN_REGIONS: List[str] = []
+GEN_REGIONS: List[str] = ["Dsp"]
 THEOREMS = {
     "SpecKitV.Lemmas.Taps": ["tap_eq_lagrange", "taps_sum_one", "taps_reproduce_poly", "tap_at_zero"],
     "SpecKitV.Lemmas.TimeShiftPaths": ["clampIdx_lt", "shiftConst_interior", "paths_agree_interior", "shiftConst_is_interpolant",
@@ -1010,6 +1010,14 @@ def correspondence(ctx) -> C.Part:
                                         "case": {"kind": "taps", "h": h, "ds": [d if 0 <= d < 1 else 0.5]}})
             elif d not in (0.0, 1.0):
                 P.nontrivial.add(("taps", h, d))
+            # the taps as translated from the source of dsp.lagrange_taps on this run (same operations in the same order: tight)
+            gen = np.array(drv.floats(f"gentaps {h} {C.f2h(d)}"))
+            P.cases += 1
+            P.hit("gentaps")
+            gtol = 8 * 2.0 ** -52 * np.maximum(np.abs(gen), np.abs(T[r])) + 1e-300 if gen.shape == T[r].shape else None
+            if gen.shape != T[r].shape or not np.all(np.abs(gen - T[r]) <= gtol):
+                P.disagreements.append({"op": "gentaps", "h": h, "d": d, "impl": T[r].tolist(), "generated": gen.tolist(),
+                                        "case": {"kind": "taps", "h": h, "ds": [d if 0 <= d < 1 else 0.5]}})
     P.sample({"op": "taps", "h": 16, "d": 0.5, "model_center": drv.floats(f"taps 16 {C.f2h(0.5)}")[15]})
 
     # constant path
